@@ -630,7 +630,7 @@ def run_seq(numqi, out, env, n, A):
             # ---- one real Generator handed to both measurements (both orders): outcomes are those of a fresh default_rng(s) that draws
             #      choice(len(p), p=p) once per call, in call order (p = the returned prob, itself compared with the Born marginal)
             for first, second in ((A, B), (B, A)):
-                for sd in range(1 if env.tier == 'quick' else 4):
+                for sd in range(1 if env.tier == 'quick' else 2):
                     if not shared_generator_path(numqi, out, n, q, name, first, second, sd, tol):
                         break
     out.sample = {'kind': 'seq', 'n': n, 'first': list(A), 'second': list(subsets[-1]), 'state': states[-1][0], 'vector': core.jsonable(states[-1][1])}
@@ -1132,16 +1132,16 @@ def build_cases(tier, seed):
             cases.append({'kind': 'circuit', 'mode': 'shift', 'n': n, 'g1': g1, 'shifts': shifts})
             cases.append({'kind': 'circuit', 'mode': 'torch', 'n': n, 'g1': g1, 'complex64': (not quick) or g1 in (None, ['ry', n - 1, n - 1])})
             small = g1 in gate_menu(n, False)  # quick tier: the new seed forms on the reduced g1 menu only
-            cases.append({'kind': 'circuit', 'mode': 'seeded', 'n': n, 'g1': g1, 'n_seed': 2 if quick else 6, 'n_shared': (1 if small else 0) if quick else 4,
+            cases.append({'kind': 'circuit', 'mode': 'seeded', 'n': n, 'g1': g1, 'n_seed': 2 if quick else 6, 'n_shared': (1 if small else 0) if quick else 3,
                           'unseeded': ([[None, 'omitted']] if small else []) if quick else [[None, 'omitted'], ['omitted', None]]})
         for g1 in gate_menu(n, (not quick) and n == 2):
             cases.append({'kind': 'circuit', 'mode': 'index_form', 'n': n, 'g1': g1})
     # composition: c1 = [front] + extend_circuit(c0) / append_gate, then c1.shift_qubit_index_(d); c1 is run (c0 afterwards: out of scope)
     for n in ([2] if quick else [2, 3]):
-        fronts = [['X', 0]] if quick else [['X', 0], ['H', n - 1], ['cnot', n - 1, 0]]
+        fronts = [['X', 0]] if (quick or n == 3) else [['X', 0], ['H', n - 1], ['cnot', n - 1, 0]]  # n=3: thin slice
         for g1 in ([None, ['H', 0]] if n == 3 else gate_menu(n, not quick)):
             cases.append({'kind': 'circuit', 'mode': 'compose', 'n': n, 'g1': g1, 'fronts': fronts, 'shifts': [0, 1, 2]})
-    info['compose'] = {'n': [2] if quick else [2, 3], 'front_gates': 1 if quick else 3, 'shifts': [0, 1, 2], 'via': ['extend_circuit', 'append_gate'],
+    info['compose'] = {'n': [2] if quick else [2, 3], 'front_gates': 1 if quick else {'n=2': 3, 'n=3': 1}, 'shifts': [0, 1, 2], 'via': ['extend_circuit', 'append_gate'],
                        'run': 'outer circuit only'}
     info['shifts'] = shifts
     info['argument_axes'] = {'index_forms': ['tuple'] + INDEX_FORMS, 'seed_forms': ['stub', 'int', 'None', 'omitted', 'shared np.random.Generator'],
